@@ -497,7 +497,7 @@ def manifest_protection(item):
     return acc
 
 
-STORED_LA_URLS = ['https://lic.example/rights', 'https://lic.example/r?x=a%2Bb', 'https://lic.example/r?x=a+b',
+STORED_LA_URLS = [None, 'https://lic.example/rights', 'https://lic.example/r?x=a%2Bb', 'https://lic.example/r?x=a+b',
                   'https://lic.example/r?a=1%26b=2', 'https://lic.example/a%20b/c', 'https://lic.example/r?a=1&b=2']
 
 
@@ -541,6 +541,17 @@ def stored_la_url(item):
             m = _re.search(r'<LA_URL>(.*?)</LA_URL>', xml, _re.S)
             import html as _html
             return _html.unescape(m.group(1)) if m else None
+        st_fix = crawl.Stored.fixture('bbb')
+
+        def differs(got, rep):
+            if url_value is not None:
+                return got != url_value
+            # no licence URL stored and none requested: the built-in test server URL, with its format fields filled in
+            # for this track's key id (GUID order, base64)
+            kid = st_fix.files[rep.id]['init'].kid if rep.id in st_fix.files else None
+            want_kid = base64.b64encode(uuid.UUID(bytes=kid).bytes_le).decode() if kid else ''
+            return not (got and got.startswith('https://test.playready.microsoft.com/') and '{' not in got and '}' not in got
+                        and f'kid:{want_kid}' in got)
         checked = 0
         for rep in doc.all_reps():
             for cp in list(rep.adp_el.findall(mpd.Q + 'ContentProtection')) + list(rep.el.findall(mpd.Q + 'ContentProtection')):
@@ -553,8 +564,9 @@ def stored_la_url(item):
                         continue
                     got = la_of(raw)
                     checked += 1
-                    if got != url_value:
-                        acc.violation(sig('stored-la-url', where), f'{url}: stream licence URL {url_value!r} appears as {got!r} in {where}', rec)
+                    if differs(got, rep):
+                        acc.violation(sig('stored-la-url', where) + ('' if url_value is not None else '|built-in-url'),
+                                      f'{url}: stream licence URL {url_value!r} appears as {got!r} in {where}', rec)
             iu = rep.init_url()
             if iu:
                 ir = w.get(mpd.split_url(iu))
@@ -568,8 +580,9 @@ def stored_la_url(item):
                                 if pp['system_id'] == c10.PLAYREADY:
                                     got = la_of(pp['data'])
                                     checked += 1
-                                    if got != url_value:
-                                        acc.violation(sig('stored-la-url', 'init-pssh'), f'{mpd.split_url(iu)}: stream licence URL '
+                                    if differs(got, rep):
+                                        acc.violation(sig('stored-la-url', 'init-pssh') + ('' if url_value is not None else '|built-in-url'),
+                                                      f'{mpd.split_url(iu)}: stream licence URL '
                                                       f'{url_value!r} appears as {got!r} in the moov pssh', rec)
                     except bmff.Malformed:
                         pass
